@@ -148,6 +148,13 @@ class Formatter:
         """
         raise NotImplementedError
 
+    @overridable
+    def support_import_chain_as_member(self) -> bool:
+        """Dose an imported proto expose its own imports as members in target language?
+        As we know, a Python module dose.
+        """
+        return False
+
     @abstractmethod
     def format_import_statement(self, t: Proto, as_name: Optional[str] = None) -> str:
         """Format import statement.
@@ -427,6 +434,15 @@ class Formatter:
         else:
             raise InternalError(f"invalid case_style mapping value {v}")
 
+    def _format_import_names(self, protos: List[Proto]) -> List[str]:
+        """Names to qualify a definition of the imported proto `protos[-1]` with,
+        given the chain of protos from the top proto down to it.
+        """
+        if self.support_import_chain_as_member():
+            # Referenced through an import of an import: `b.c.Type`.
+            return [self._get_definition_name(proto) for proto in protos[1:]]
+        return [self._get_definition_name(protos[-1])]  # Last is the imported parent.
+
     @final
     def format_definition_name(
         self, d: Definition, class_: Optional[T[Definition]] = None
@@ -456,7 +472,7 @@ class Formatter:
             return definition_name
         # `proto` is imported in another proto.
         return self.delimer_cross_proto().join(
-            [self._get_definition_name(proto), definition_name]
+            self._format_import_names(protos) + [definition_name]
         )
 
     @final
@@ -476,8 +492,7 @@ class Formatter:
         if not self.support_import_as_member():
             return formatted_name
 
-        proto = protos[-1]  # Last is the imported parent.
-        items = [self._get_definition_name(proto), formatted_name]
+        items = self._format_import_names(protos) + [formatted_name]
         return self.delimer_cross_proto().join(items)
 
     @final
